@@ -124,6 +124,14 @@ func runSolver(ctx context.Context, s solverSpec, file string, timeout time.Dura
 	cmd.Stderr = &out
 	_ = cmd.Run()
 	txt := out.String()
+	// warnings (e.g. a pattern the solver chooses to ignore) precede the verdict
+	for strings.HasPrefix(txt, "WARNING") {
+		i := strings.Index(txt, "\n")
+		if i < 0 {
+			break
+		}
+		txt = txt[i+1:]
+	}
 	first := strings.TrimSpace(strings.SplitN(txt, "\n", 2)[0])
 	res := "error"
 	if strings.HasPrefix(first, "(error") && !strings.Contains(first, "model is not available") {
